@@ -22,7 +22,6 @@ import (
 	"github.com/nspcc-dev/neo-go/pkg/smartcontract/manifest"
 	"github.com/nspcc-dev/neo-go/pkg/smartcontract/nef"
 	"github.com/nspcc-dev/neo-go/pkg/util"
-	"github.com/nspcc-dev/neo-go/pkg/vm"
 	"github.com/nspcc-dev/neo-go/pkg/vm/emit"
 	"github.com/nspcc-dev/neo-go/pkg/vm/opcode"
 	"github.com/nspcc-dev/neo-go/pkg/vm/stackitem"
@@ -139,8 +138,7 @@ func c06RunStale(co *caseOut, in c06StaleIn) error {
 				tx := transaction.New(w.Bytes(), 0)
 				tx.Nonce = neotest.Nonce()
 				tx.ValidUntilBlock = vub
-				tx.Signers = []transaction.Signer{{Account: accs[from].ScriptHash(), Scopes: transaction.CalledByEntry}}
-				return e.SignTx(t, tx, 1_0000_0000, accs[from])
+				return e.SignTx(t, tx, 1_0000_0000, accs[from]) // adds the signer (CalledByEntry) and the minimal network fee
 			}
 			switch fam {
 			case "fpb-down-up":
@@ -406,7 +404,8 @@ func c06OracleSetup(t *c02T, e *neotest.Executor, bc *core.Blockchain) (*transac
 	return resp([]byte{1, 2, 3}), resp([]byte{9, 9})
 }
 
-// the ExecFeeFactor as Policy's setter takes it
+// the ExecFeeFactor as Policy's setter takes it (all hardforks are active on the harness's chains: since Faun the
+// setter takes the factor multiplied by vm.ExecFeeFactorMultiplier, which is what GetBaseExecFee returns)
 func execFactor(bc *core.Blockchain) int64 {
-	return bc.GetBaseExecFee() / vm.ExecFeeFactorMultiplier
+	return bc.GetBaseExecFee()
 }
